@@ -76,13 +76,33 @@ theorem styled_polyline_same_scanlines (pl : Polyline) (w : Nat) (hw : 2 ≤ w)
   have hlt : ps.length < polyPixelBudget bb * (pl.vertices.length + 1) := by
     unfold PolyPixelBudgetOK at hb
     rw [hps, hbb] at hb
-    exact hb
+    rcases hb with hb | hb
+    · omega
+    · exact hb
   obtain ⟨L', hL', hps'⟩ := pixels_eq_run pl w hw bb hbb ps hps hlt
   rw [hL] at hL'
   simp only [Option.some.injEq] at hL'
   subst hL'
   exact ⟨L, hne, hd, hps'⟩
 example : PolyPixelBudgetOK ⟨⟨1, -2⟩, [⟨0, 0⟩, ⟨6, 3⟩, ⟨2, 7⟩]⟩ 4 := by decide +kernel
+
+/-- Whatever the model's pixel budget: `pixels()` of the model is the first `budget` points of the
+scanlines `draw()` turns into rectangles, walked in the same order — the only way
+`PolyPixelBudgetOK` can fail is truncation of the model's list (no guard). -/
+theorem styled_polyline_pixels_prefix (pl : Polyline) (w : Nat) (hw : 2 ≤ w) (bb : Rect)
+    (hbb : untranslatedBoundingBox pl w = some bb) :
+    ∃ L : List Scanline, (∀ s ∈ L, s.isEmpty = false) ∧
+      drawStyled pl w = some (.fillSolids (L.map (fun s => (moveS s pl.translate).toRectangle))) ∧
+      pixels pl w = some ((L.flatMap (fun s => (moveS s pl.translate).points)).take
+        (polyPixelBudget bb * (pl.vertices.length + 1))) := by
+  obtain ⟨L, hL, hne, hd⟩ := drawStyled_eq_run pl w hw
+  obtain ⟨L', hL', hps⟩ := pixels_prefix_run pl w hw bb hbb
+  rw [hL] at hL'
+  simp only [Option.some.injEq] at hL'
+  subst hL'
+  exact ⟨L, hne, hd, hps⟩
+example : ∃ bb, untranslatedBoundingBox ⟨⟨1, -2⟩, [⟨0, 0⟩, ⟨6, 3⟩, ⟨2, 7⟩]⟩ 4 = some bb :=
+  untranslatedBoundingBox_total _ _
 
 /-- **Write sequences.** For every stroked polyline, width, colour option and target box: the writes
 of `draw()` — natively (R2) and through the trait defaults (R1) — are exactly the pixels of
